@@ -186,3 +186,38 @@ def run_unit(run_fn_factory, unit):
         raise HarnessError("%s [cfg=%r]" % (x, cfg))
     st.extra["executions_by_config"] = {cfg_key(cfg): st.executions}
     return st, [], cfg, p, r
+
+
+class FormattingLogSink(object):
+    """context manager: the 'Pyro5' loggers run at DEBUG level with a handler that formats every record (so the arguments of lazy
+    '%s' log calls are really evaluated, as with PYRO_LOGLEVEL=DEBUG) into memory, without taking any lock of its own"""
+
+    def __enter__(self):
+        import logging
+
+        class Sink(logging.Handler):
+            def createLock(self):
+                self.lock = None
+
+            def handle(self, record):
+                try:
+                    self.records.append(record.getMessage())
+                except Exception as x:       # a log call whose arguments cannot be formatted is reported by logging itself; keep going
+                    self.records.append("unformattable: %r" % (x,))
+                return True
+        self.logger = logging.getLogger("Pyro5")
+        self.sink = Sink()
+        self.sink.records = []
+        self.saved = (self.logger.level, self.logger.propagate, list(self.logger.handlers))
+        self.logger.handlers = [self.sink]
+        self.logger.setLevel(logging.DEBUG)
+        self.logger.propagate = False
+        return self.sink
+
+    def __exit__(self, *a):
+        self.logger.setLevel(self.saved[0])
+        self.logger.propagate = self.saved[1]
+        self.logger.handlers = self.saved[2]
+        import logging
+        logging.Logger.manager._clear_cache() if hasattr(logging.Logger.manager, "_clear_cache") else None
+        return False
